@@ -75,9 +75,9 @@ var forcedOp = -1
 
 // genCodecOp draws an operation and its private input.
 func genCodecOp() codecOp {
-	nk := 16
+	nk := 17
 	if len(registry.Types) == 0 {
-		nk = 12
+		nk = 13
 	}
 	op := ch("c18.op", nk)
 	if forcedOp >= 0 {
@@ -109,6 +109,66 @@ func genCodecOpKind(op int) codecOp {
 					return "", err
 				}
 				return fmt.Sprintf("%d %x", end-off, ref.Encode(nil, v)), nil
+			})
+		}}
+	case 12:
+		// containers nested dozens of levels deep (around the depths at which other Thrift
+		// libraries stop), decoded, walked, evaluated or skipped next to ordinary values
+		depth := []int{30, 48, 60, 62, 63, 64, 65, 66, 70, 100}[ch("c18.deep-levels", 10)]
+		// built from the inside out: list<i32> [5, 6], wrapped depth times
+		b := []byte{ref.TI32, 0, 0, 0, 2, 0, 0, 0, 5, 0, 0, 0, 6}
+		t := byte(ref.TList)
+		// which kinds of container the levels are: lists only, lists and maps, all three, or
+		// lists with one set somewhere
+		mix := ch("c18.deep-mix", 4)
+		theSet := ch("c18.deep-set-at", depth)
+		for i := 0; i < depth; i++ {
+			kind := 0
+			switch mix {
+			case 1:
+				kind = 2 * ch("c18.deep-kind", 2)
+			case 2:
+				kind = ch("c18.deep-kind", 3)
+			case 3:
+				if i == theSet {
+					kind = 1
+				}
+			}
+			switch kind {
+			case 0:
+				b, t = append([]byte{t, 0, 0, 0, 1}, b...), ref.TList
+			case 1:
+				b, t = append([]byte{t, 0, 0, 0, 1}, b...), ref.TSet
+			default:
+				b, t = append([]byte{ref.TI8, t, 0, 0, 0, 1, 7}, b...), ref.TMap // map<i8, ...>: one entry under key 7
+			}
+		}
+		how := ch("c18.deep-how", 3)
+		plan := simio.Plan{TruncAt: -1, ErrAt: -1, Style: simio.Style(ch("c18.style", 3)), Seekable: ch("c18.seekable", 2) == 1}
+		return codecOp{fmt.Sprintf("value nested %d levels deep (%s)", depth, []string{"Decode+force", "Decode+EvaluateValue", "Skip"}[how]), func() string {
+			return resultOf(func() (string, error) {
+				if how == 2 {
+					o := stSkip(b, wire.Type(t), plan)
+					if !o.ok {
+						return "", errors.New(o.String())
+					}
+					return fmt.Sprintf("skipped %d", o.used), nil
+				}
+				w, err := tbinary.Default.Decode(simio.NewReaderAt(b, fullPlan), wire.Type(t))
+				if err != nil {
+					return "", err
+				}
+				if how == 1 {
+					if err := wire.EvaluateValue(w); err != nil {
+						return "", err
+					}
+					return "evaluated", nil
+				}
+				v, err := refwire.Force(w)
+				if err != nil {
+					return "", err
+				}
+				return fmt.Sprintf("%x", ref.Encode(nil, v)), nil
 			})
 		}}
 	case 11:
@@ -516,17 +576,23 @@ func c18Codec(res *world.Result, s *simrt.Sim, logf func(string, ...interface{})
 	sharedBuf, sharedReader = nil, nil
 	forcedOp = -1
 	if simrt.Flip("c18.same-op", 0.3) {
-		forcedOp = ch("c18.same-op-kind", 14)
+		forcedOp = ch("c18.same-op-kind", 17)
 	}
 	defer func() { forcedOp = -1 }()
 	ops := make([]codecOp, K)
 	alone := make([]string, K)
+	// the baseline of an operation is what it yields with every pool fresh; what the baselines
+	// leave in the pools is put back before the callers start, as in a process that has been
+	// running for a while
+	var stash simrt.PoolStash
 	for i := range ops {
 		ops[i] = genCodecOp()
-		alone[i] = ops[i].run() // sequential baseline
+		stash = simrt.StashPools(stash)
+		alone[i] = ops[i].run()
 		h.Str(alone[i])
 		logf("op %d: %s; alone -> %s", i, ops[i].name, first(alone[i], 120))
 	}
+	stash.Restore()
 	got := make([]string, K)
 	var wg simrt.WaitGroup
 	wg.Add(K)
